@@ -259,7 +259,7 @@ func upOpts() []iscp.UpstreamOption {
 
 var scenarioNames = []string{"open-up", "write-flush", "up-close-unflushed", "open-down", "read-points", "read-points-unknown-aliases", "read-metadata", "send-metadata", "call", "call-wait-reply", "receive-calls", "two-streams-then-conn-close"}
 
-var behaviours = []string{"answer", "drop", "delay", "misaddress-request-id", "misaddress-stream-alias", "misaddress-source-node", "disconnect-sever", "disconnect-wfail", "disconnect-reof", "disconnect-blackhole"}
+var behaviours = []string{"answer", "drop", "delay", "misaddress-request-id", "misaddress-stream-alias", "misaddress-source-node", "disconnect-sever", "disconnect-wfail", "disconnect-reof", "disconnect-blackhole", "duplicate-reply-no-ack"}
 
 type fault struct {
 	Scenario  string `json:"scenario"`
@@ -373,6 +373,14 @@ func runScenario(f fault) (e *env, trace []string, probeErr string, censusLeft [
 			lc.Default(m, unrel)
 			lc.Send(&message.DownstreamMetadata{RequestID: 9001, StreamIDAlias: alias, SourceNodeID: "node-nobody-subscribed", Metadata: &message.BaseTime{Name: "stray", BaseTime: time.Unix(1, 0).UTC()}})
 			return true
+		case "duplicate-reply-no-ack":
+			// (only planned for calls) the peer answers a call twice and never acknowledges it
+			if uc, ok := m.(*message.UpstreamCall); ok {
+				for k := 0; k < 2; k++ {
+					lc.Send(&message.DownstreamCall{CallID: fmt.Sprintf("dup-%d", k), RequestCallID: uc.CallID, SourceNodeID: "n", Name: "r", Type: "t", Payload: []byte("y")})
+				}
+			}
+			return true
 		case "disconnect-sever":
 			lc.L.Fail(memnet.Sever)
 		case "disconnect-wfail":
@@ -439,6 +447,26 @@ func runScenario(f fault) (e *env, trace []string, probeErr string, censusLeft [
 				probeErr = fmt.Sprintf("probe SendBaseTime: returned=%v err=%v", ok, err)
 			}
 		}
+		if probeErr == "" {
+			// the connection's call dispatcher still delivers: an incoming call sent now comes out of ReceiveCall
+			if lc := w.B.CurrentLink(); lc != nil {
+				lc.Send(&message.DownstreamCall{CallID: "probe-call", SourceNodeID: "n", Name: "probe", Type: "t", Payload: []byte("p")})
+			}
+			if ok, err := pe.call("probe:ReceiveCall", probeT, func(ctx context.Context) error {
+				for i := 0; i < 64; i++ {
+					dc, err := conn.ReceiveCall(ctx)
+					if err != nil {
+						return err
+					}
+					if dc.CallID == "probe-call" {
+						return nil
+					}
+				}
+				return fmt.Errorf("64 other calls came first")
+			}); !ok || err != nil {
+				probeErr = fmt.Sprintf("probe ReceiveCall: returned=%v err=%v", ok, err)
+			}
+		}
 		if pe.hung != nil {
 			e.hung = pe.hung
 		}
@@ -474,6 +502,9 @@ func buildPlan(t *testing.T) []fault {
 		res = append(res, fault{Scenario: name, Position: 0, Behaviour: "answer"})
 		for p := 1; p <= len(trace); p++ {
 			for _, b := range behaviours[1:] {
+				if b == "duplicate-reply-no-ack" && trace[p-1] != "UpstreamCall" {
+					continue
+				}
 				res = append(res, fault{Scenario: name, Position: p, Behaviour: b, Class: trace[p-1]})
 			}
 		}
@@ -514,7 +545,7 @@ func TestC08NoHang(t *testing.T) {
 		}
 	}
 	meta := vrun.Meta{Property: "C08", Workload: "TestC08NoHang", Total: len(faults), Exhaustive: !vrun.LoadEnv().Thorough(),
-		Rule: "fault enumeration: 12 API scenarios (open/write/flush/close of both stream kinds, reads, reads of chunks that refer to aliases the peer never announced, metadata, the three call APIs, receive inboxes, connection close with streams open) x every position of the scenario's fault-free client message trace x broker behaviour {drop, delay beyond the bound, misaddress by request id, by stream alias, by unsubscribed source node, disconnect in 4 modes (sever, write-fail, read-EOF, blackhole)}; every call carries a 5 s context deadline (virtual), close timeout 2 s, keepalive 1 s + 1 s. Oracle on the virtual clock: each call returns no later than its deadline + 1 ms; afterwards, with a cooperative broker, a probe set (open/write/close upstream, open/close downstream, metadata) completes within 120 virtual seconds; a case that stalls in real time with a library goroutine parked on a mutex is a leaked lock. the thorough tier adds 6000 seed-drawn PAIRS of faults at two positions of one scenario to the complete single-fault grid. non-trivial = the fault fired (position reached); distinct = (scenario, positions, behaviours)",
+		Rule: "fault enumeration: 12 API scenarios (open/write/flush/close of both stream kinds, reads, reads of chunks that refer to aliases the peer never announced, metadata, the three call APIs, receive inboxes, connection close with streams open) x every position of the scenario's fault-free client message trace x broker behaviour {drop, delay beyond the bound, misaddress by request id, by stream alias, by unsubscribed source node, disconnect in 4 modes (sever, write-fail, read-EOF, blackhole), for calls also: answered twice and never acknowledged}; every call carries a 5 s context deadline (virtual), close timeout 2 s, keepalive 1 s + 1 s. Oracle on the virtual clock: each call returns no later than its deadline + 1 ms; afterwards, with a cooperative broker, a probe set (open/write/close upstream, open/close downstream, metadata, an incoming call through ReceiveCall) completes within 120 virtual seconds; a case that stalls in real time with a library goroutine parked on a mutex is a leaked lock. the thorough tier adds 6000 seed-drawn PAIRS of faults at two positions of one scenario to the complete single-fault grid. non-trivial = the fault fired (position reached); distinct = (scenario, positions, behaviours)",
 		Assumptions: []string{"the governing bound of every judged call is its own context deadline (calls without a deadline on a live connection have no bound and are not judged)",
 			"the path-complete lock-release lemma of the statement is out of reach of runtime monitoring: only locks leaked on executed paths are detected"}}
 	vrun.Loop(t, meta, 0, func(c *vrun.Case) vrun.Result {
